@@ -117,7 +117,7 @@ func Catalogue(tier string) []core.System {
 
 // ChainCatalogue: configurations driven by long seeded random sequences (entries repeated = weight).
 func ChainCatalogue() []core.System {
-	var rnd, rndg []core.Event
+	var rnd, rndg, rndgr []core.Event
 	for p := 1; p <= 3; p++ {
 		for _, s := range []string{"absent", "down", "down", "init", "up", "up", "up", "Up", "admin down", "shutdown"} {
 			rnd = append(rnd, evFrr(p, s))
@@ -135,12 +135,16 @@ func ChainCatalogue() []core.System {
 		for _, s := range []string{"down", "init", "up", "up", "absent"} {
 			rndg = append(rndg, evFrr(p, s))
 		}
-		rndg = append(rndg, evAdd(p), evAddOpt(p), evRemove(p))
+		rndg = append(rndg, evAdd(p), evAddOpt(p))
 	}
 	for i := 0; i < 4; i++ {
 		rndg = append(rndg, evPollBegin, evPollEnd, evAdv(1))
 	}
 	rndg = append(rndg, evFail("garbage", true), evFail("garbage", false), evFail("fail_show", true), evFail("fail_show", false))
+	// the same with RemovePeer: a removal while a fetch is in flight runs into the known resurrection of the removed
+	// peer, after which the monitor stops following the chain - hence a separate system
+	rndgr = append(rndgr, rndg...)
+	rndgr = append(rndgr, evRemove(1), evRemove(2), evRemove(1), evRemove(2))
 	var hc []core.Event
 	for _, r := range []string{"oooo", "ooof", "offo", "foof", "ffff", "ffoo", "fofo", "ofof", "ooff", "ffff", "oooo"} {
 		hc = append(hc, core.Event{"op": "check", "t": 0, "r": r})
@@ -152,6 +156,7 @@ func ChainCatalogue() []core.System {
 	return []core.System{
 		&BSystem{name: "rnd3", NPeers: 3, Alphabet: rnd},
 		&BSystem{name: "rndg2", NPeers: 2, Prestarted: true, Alphabet: rndg},
+		&BSystem{name: "rndgr2", NPeers: 2, Prestarted: true, Alphabet: rndgr},
 		&BSystem{name: "rndstop2", NPeers: 2, Alphabet: []core.Event{evStart, evStart, evStop, evAdv(1), evAdv(1), evAdv(2), evAdd(1), evRemove(1), evFrr(1, "up"), evFrr(1, "down"),
 			evFrr(2, "up"), evFrr(2, "init"), evFail("fail_show", true), evFail("fail_show", false), evFail("fail_show", false)}},
 		&HSystem{name: "rndhc4", NTargets: 4, Alphabet: hc},
